@@ -6,6 +6,7 @@ import (
 	"runtime"
 	"strings"
 	"xmc/core"
+	"xmc/ref"
 
 	"github.com/xjslang/xjs/ast"
 	"github.com/xjslang/xjs/compiler"
@@ -66,7 +67,10 @@ func panicText(r any) string {
 	return fmt.Sprintf("%v @ %s", r, strings.Join(keep, " < "))
 }
 
+func init() { ref.OnReturn = core.Beat }
+
 func parseWith(pb *parser.Builder, src string) (o ParseOut) {
+	defer core.Beat()
 	defer func() {
 		if r := recover(); r != nil {
 			o.Panic = panicText(r)
@@ -173,6 +177,7 @@ type CompOut struct {
 }
 
 func compileCfg(prog *ast.Program, c Cfg) (o CompOut) {
+	defer core.Beat()
 	defer func() {
 		if r := recover(); r != nil {
 			o.Panic = panicText(r)
